@@ -129,6 +129,35 @@ example : fsEfuns.length ≥ 20 := by decide
     the theorem. -/
 theorem mediation_propagates_errors : mediationApplies = ["apply_master_ob"] := by decide
 
+/-- functions declared outside the repository that take a character pointer and do NOT take a file name: string
+    comparison / conversion, formatted output to an already open stream, multibyte conversion, `fdopen` (wraps a
+    descriptor), `getcwd` (output only), `crypt`, `inet_ntop`; `query_addr_number` is the driver's own
+    (src/comm.c, declared locally in interactive.c).  Anything else that takes a `char *` must be one of the
+    file-system callees the translator searches for — or this list is extended with a reason. -/
+def knownNonFs : List String :=
+  ["__assert_fail", "atoi", "atol", "atoll", "atof", "crypt", "fdopen", "fgets", "fprintf", "fputs", "fputc", "getcwd",
+   "inet_ntop", "inet_pton", "inet_addr", "mblen", "mbstowcs", "mbtowc", "mbrtowc", "wcstombs", "wctomb",
+   "query_addr_number", "sscanf", "vsscanf", "stpncpy", "strcmp", "strncmp", "strcasecmp", "strncasecmp", "strcoll",
+   "strlen", "strnlen", "strspn", "strcspn", "strtod", "strtof", "strtol", "strtoll", "strtoul", "strtoull", "strdup",
+   "strndup", "strtok", "strtok_r", "strerror_r", "vasprintf", "asprintf", "printf", "vprintf", "vfprintf", "puts",
+   "perror", "getenv", "setlocale", "strftime", "memccpy", "fwrite", "fread", "write", "read", "send", "recv"]
+
+/-- **fail closed on unknown callees**: every external function with a character-pointer parameter that is called
+    from the scanned files is either a file-system callee the translator searches for (then it is a `sites` row
+    and `mediated_sites` speaks about it), a buffer-filling / strchr-family function the translator interprets, or
+    on `knownNonFs`.  A call of a path-taking function nobody listed (a new libc wrapper, `fopen64`-style alias …)
+    breaks this obligation. -/
+theorem ext_callees_classified : extCallees.all (fun c => knownNonFs.contains c) = true := by decide
+
+/-- the searched callee names include the less usual ways to reach a file -/
+theorem fs_callees_cover :
+    (["open", "open64", "openat", "openat2", "creat", "fopen", "fopen64", "freopen", "stat", "lstat", "statx", "fstatat",
+      "access", "unlink", "unlinkat", "remove", "rename", "renameat", "mkdir", "rmdir", "opendir", "scandir", "link",
+      "symlink", "readlink", "truncate", "chmod", "chown", "utime", "utimes", "realpath", "mkstemp", "tmpnam", "popen",
+      "system", "execve", "dlopen", "chdir", "chroot", "glob"].all (fun c => fsCallees.contains c)) = true := by decide
+
+example : knownNonFs.all (fun c => !fsCallees.contains c) = true := by decide
+
 /-- the operation name and write flag of EVERY `check_valid_path` call, regenerated from the source: this is the
     table `Sys.efunEvents` / `Spec.opNames` mirror (efun → operation name, valid_write iff flag 1; `getfn` passes
     its own `writeflg`: 0 for e / E / f / r, 1 for w / W / x).  A call that changes its flag (asks valid_read
